@@ -196,6 +196,8 @@ def spelling_trees():
 def finalize(rng, tree, lay, enc):
     """choose how the value is observed so that the stored dword is defined; None if the tree is unusable (too big)"""
     syms, dot = layout_syms(lay)
+    if not X.small_enough(tree, syms, dot, enc):
+        return None
     try:
         v = X.ev(tree, syms, dot, enc)
     except X.EvalError:
